@@ -64,7 +64,7 @@ def uses_outside_min(w, fn, argn):
     return bad
 
 
-def run(ctx, w):
+def _run(ctx, w):
     S = shared.screen(w)
     R = shared.roles(w)
     E = w.E
@@ -152,6 +152,7 @@ def run(ctx, w):
                           sample={"fn": f, "pen": w.tstr(f, pen)})
     ctx.floor("W3", 4, "scroll primitive call sites")
     ctx.floor("W4", 4, "scroll primitive call sites")
+    scroll_helpers_total(ctx, w, S, R, up, down, "W3m")
 
     # ---- W4b blanks inside the primitives use the pen parameter -------------------------------------
     ctx.rule("W4b", "inside the scroll primitives every blank row is built from the pen parameter")
@@ -249,6 +250,11 @@ def run(ctx, w):
     shared.stale_operands(ctx, w, S, R, "W11", ["Il", "Dl", "Su", "Sd", "Lf", "Ri"])
     from rules import prims
     prims.scroll_primitives(ctx, w, S, "W12")
+    # "the alternate screen keeps none": whatever lengthens the line vector must request the trim
+    from rules import c13, c14
+    T14b = c14.Trim(w, S, R)
+    if T14b.ok:
+        c13.growth_flag_rule(ctx, w, S, R, T14b, "W13")
     ctx.floor("W12", 500, "scroll primitive evaluations")
 
 
@@ -374,7 +380,91 @@ def linefeed_rule(ctx, w, S, R, up):
             ctx.check(ok, "W10", "%s:down:%s" % (f, shared.site_key(w, f, cs.point)),
                       "%s moves the cursor down a row on a path where it may be on the bottom margin (guards: %s): the cursor walks out of the scroll region instead of scrolling it" % (f, [(w.tstr(f, c), v) for c, v in gs]),
                       loc=w.site_loc(cs), sample={"fn": f, "guards": [(w.tstr(f, c), v) for c, v in gs]})
+            rows_t = ("load", ("arg1", R["rows"]))
+            last = ("binop", "Sub", rows_t, ("const", 1))
+            ok2 = any(c[0] == "binop" and ((c[1] == "Lt" and c[2] == row_t and c[3] == last and v is True) or (c[1] == "Ge" and c[2] == row_t and c[3] == last and v is False)
+                                           or (c[1] == "Ne" and {c[2], c[3]} == {row_t, last} and v is True) or (c[1] == "Eq" and {c[2], c[3]} == {row_t, last} and v is False)
+                                           or (c[1] == "Gt" and c[2] == last and c[3] == row_t and v is True)) for c, v in gs)
+            ctx.check(ok2, "W10", "%s:down-last:%s" % (f, shared.site_key(w, f, cs.point)),
+                      "%s moves the cursor down a row without having established that it is above the last row (guards: %s)" % (f, [(w.tstr(f, c), v) for c, v in gs]), loc=w.site_loc(cs))
     ctx.floor("W10", 4, "line-feed sites")
+    # the mirror image: reverse index
+    ctx.rule("W10r", "reverse index scrolls the region down iff the cursor is on the top margin; otherwise it moves up exactly one row unless it is on row 0 (also above / below the region)")
+    tm_t = ("load", ("arg1", R["top_margin"]))
+    down_prim = scroll_prims(w, S)[1]
+    for f in sorted(S.terminal_scope):
+        T = w.terms(f)
+        scrolls = [cs for cs in E.call_sites(f) if cs.local and cs.callee in S.terminal_scope and down_prim in E.reachable_fns([cs.callee])
+                   and len(cs.term["args"]) == 2 and T.operand(cs.term["args"][1], cs.point) == ("const", 1)]
+        ups = [cs for cs in E.call_sites(f) if cs.local and len(cs.term["args"]) == 2
+               and WD.strip_names(T.operand(cs.term["args"][1], cs.point)) == ("binop", "Sub", row_t, ("const", 1))]
+        if not scrolls or not ups:
+            continue
+        for cs in scrolls:
+            gs = [(WD.strip_names(c), v) for c, v in w.guards_of(f, cs.point[0])]
+            ok = any(c == ("binop", "Eq", row_t, tm_t) and v is True for c, v in gs)
+            ctx.check(ok, "W10r", "%s:scroll:%s" % (f, shared.site_key(w, f, cs.point)), "%s scrolls the region down without having established cursor.row == top_margin (guards: %s)" % (f, [(w.tstr(f, c), v) for c, v in gs]),
+                      loc=w.site_loc(cs), sample={"fn": f, "guards": [(w.tstr(f, c), v) for c, v in gs]})
+        for cs in ups:
+            gs = [(WD.strip_names(c), v) for c, v in w.guards_of(f, cs.point[0])]
+            ok = any(c == ("binop", "Eq", row_t, tm_t) and v is False for c, v in gs)
+            zero = ("const", 0)
+            others = [(c, v) for c, v in gs if c != ("binop", "Eq", row_t, tm_t)]
+            ok0 = len(others) == 1 and others[0][0][0] == "binop" and (
+                (others[0][0][1:] == ("Gt", row_t, zero) and others[0][1] is True) or (others[0][0][1:] == ("Ne", row_t, zero) and others[0][1] is True) or
+                (others[0][0][1:] == ("Eq", row_t, zero) and others[0][1] is False) or (others[0][0][1:] == ("Ge", row_t, ("const", 1)) and others[0][1] is True))
+            ctx.check(ok and ok0, "W10r", "%s:up:%s" % (f, shared.site_key(w, f, cs.point)),
+                      "%s moves the cursor up a row under %s; required: not on the top margin, and row > 0 - nothing else (off the region the cursor still moves)" % (f, [(w.tstr(f, c), v) for c, v in gs]),
+                      loc=w.site_loc(cs), sample={"fn": f, "guards": [(w.tstr(f, c), v) for c, v in gs]})
+    ctx.floor("W10r", 2, "reverse-index sites")
+
+
+def ctor_helpers(w, S):
+    """Terminal methods that just build and return a buffer: {helper: (ctor call site, [arg terms in the helper's frame])}."""
+    out = {}
+    for fn in sorted(w.bodies):
+        fo = w.facts.fns.get(fn, {})
+        if S._impl_of(fn) != S.term_ty or (fo.get("output") or {}).get("adt") != S.buffer_ty:
+            continue
+        sites = w.E.call_sites(fn, S.buffer_ctor)
+        if len(sites) != 1:
+            continue
+        b = w.body(fn)
+        T = w.terms(fn)
+        rts = [WD.strip_names(T.local(0, (rb, b.n_stmts(rb)))) for rb in b.return_blocks()]
+        if rts and all(t[0] == "call" and t[1] == S.buffer_ctor for t in rts):
+            out[fn] = (sites[0], [WD.strip_names(T.operand(a, sites[0].point)) for a in sites[0].term["args"]])
+    return out
+
+
+def ctor_sites(w, S, fn):
+    """Buffer constructions performed by fn, directly or through a build-and-return helper:
+    [(call site in fn, [constructor argument terms in fn's frame])]."""
+    helpers = ctor_helpers(w, S)
+    if fn in helpers:
+        return []
+    T = w.terms(fn)
+    out = []
+    for cs in w.E.call_sites(fn):
+        if cs.callee == S.buffer_ctor:
+            out.append((cs, [WD.strip_names(T.operand(a, cs.point)) for a in cs.term["args"]]))
+        elif cs.callee in helpers:
+            actual = [WD.strip_names(T.operand(a, cs.point)) for a in cs.term["args"]]
+            mapping = {}
+            for i, a in enumerate(actual):
+                if i == 0:
+                    base = a
+                    while base[0] in ("ref", "deref"):
+                        base = base[2] if base[0] == "ref" else base[1]
+                    if base != ("load", ("arg1",)):
+                        mapping = None
+                        break
+                else:
+                    mapping[("load", ("arg%d" % (i + 1),))] = a
+            if mapping is None:
+                continue
+            out.append((cs, [WD.subst_term(t, mapping) for t in helpers[cs.callee][1]]))
+    return out
 
 
 def role_limits(ctx, w, S, R, rule):
@@ -387,9 +477,9 @@ def role_limits(ctx, w, S, R, rule):
         if S._impl_of(fn) != S.term_ty:
             continue
         T = w.terms(fn)
-        for cs in E.call_sites(fn, S.buffer_ctor):
+        for cs, cargs in ctor_sites(w, S, fn):
             role = buffer_role(w, S, R, fn, cs)
-            lim = WD.strip_names(T.operand(cs.term["args"][2], cs.point))
+            lim = cargs[2]
             key = "%s:%s" % (fn, shared.site_key(w, fn, cs.point))
             if role == "alternate":
                 ctx.check(lim == some0, rule, key, "%s creates an alternate-screen buffer with scrollback limit %s; the alternate screen keeps none" % (fn, w.tstr(fn, lim)),
@@ -401,3 +491,35 @@ def role_limits(ctx, w, S, R, rule):
             else:
                 ctx.violation(rule, key, "cannot tell the role of the buffer created in %s" % fn, loc=w.site_loc(cs))
     ctx.floor(rule, 3, "buffer construction sites")
+
+
+def run(ctx, w):
+    _run(ctx, w)
+    # the commands of this property must first of all be DECODED as specified (selector values, parameter slots, finals)
+    from rules import c03
+    shared.embed(ctx, w, c03.dispatch_rules)
+
+
+def scroll_helpers_total(ctx, w, S, R, up, down, rule):
+    E = w.E
+    # W3m: a routine whose job is to scroll does so on EVERY path (no shortcut for special regions), and hands over its own count
+    ctx.rule(rule, "every routine that scrolls a region reaches the scroll primitive on every path to its return (no special-cased region / count), with its own count parameter")
+    for f in sorted(S.terminal_scope):
+        sites = [cs for prim in (up, down) for cs in E.call_sites(f, prim)]
+        if not sites:
+            continue
+        b = w.body(f)
+        T = w.terms(f)
+        # paths that never scroll are legitimate only in the cursor-movement routines, which W10 / the RI rule decide
+        fo = w.facts.fns[f]
+        takes_count = [i for i, a in enumerate(fo.get("inputs", [])) if a["s"] == "usize"]
+        is_helper = len(fo.get("inputs", [])) == 2 and takes_count == [1]
+        if is_helper:
+            okp = b.every_path_to_return_hits((0, 0), {cs.point for cs in sites}, include_start=True)
+            ctx.check(okp, rule, f + ":always", "%s has a path that returns without calling the scroll primitive: for some region / count the rows are not shifted (and nothing reaches the scrollback)" % f,
+                      loc=w.fn_loc(f), sample={"fn": f, "scroll_sites": len(sites)})
+            for cs in sites:
+                n_t = WD.strip_names(T.operand(cs.term["args"][2], cs.point))
+                ctx.check(n_t == ("load", ("arg2",)), rule, f + ":count:" + shared.site_key(w, f, cs.point), "%s scrolls by %s instead of the count it was given" % (f, w.tstr(f, n_t)), loc=w.site_loc(cs),
+                          sample={"fn": f, "count": w.tstr(f, n_t)})
+    ctx.floor(rule, 2, "region scroll helpers")
